@@ -529,12 +529,12 @@ Definition shareable (k : hkind) : bool :=
 Definition blocking (k : hkind) : bool :=
   match k with KAid | KBit | KVs => true | _ => false end.
 
-Record handle := mkH { hk : hkind; hobj : Z; hparent : Z; hcnt : Z }.     (* kind, object identity, parent id, issue count *)
+Record handle := mkH { hk : hkind; hobj : Z; hparent : Z; hcnt : Z; hmode : Z }.   (* kind, object identity, parent id, issue count, 1 = exclusive (write) attachment *)
 Definition htable := list (Z * handle).
 
 Inductive hcall :=
 | CRoot (k : hkind) (obj : Z) (argsok : bool)                              (* open by path: no parent handle *)
-| CIssue (k : hkind) (parent : Z) (pk : hkind) (sub : Z) (argsok : bool)  (* open/attach/select/create under a parent handle *)
+| CIssue (k : hkind) (parent : Z) (pk : hkind) (sub : Z) (argsok : bool) (mode : Z)  (* open/attach/select/create under a parent handle; mode 1 = for writing *)
 | CUse (k : hkind) (id : Z)                                                (* inquiry on a handle: reports the object identity *)
 | CRelease (k : hkind) (id : Z)                                            (* the kind's release call *)
 | CPair (k1 : hkind) (id1 : Z) (k2 : hkind) (id2 : Z) (argsok : bool).     (* a call that takes two ids (Vinsert) *)
@@ -542,7 +542,7 @@ Inductive hcall :=
 Inductive hans := AFail | AOk (v : Z).            (* library answer: v = issued id (issue) / identity (use) / 0 (release) *)
 Inductive verdict := VOk | VBad (code : Z).       (* code: 1 stale/foreign id accepted, 2 valid call refused, 3 wrong object,
                                                      4 issued id aliases a live handle, 5 file closed under attached elements,
-                                                     6 ids of two different files accepted together *)
+                                                     6 ids of two different files accepted together, 7 attachment issued against the exclusivity of a write attachment *)
 
 Definition hget (k : hkind) (id : Z) (t : htable) : option handle :=
   match aget id t with
@@ -567,28 +567,37 @@ Fixpoint root_of (fuel : nat) (id : Z) (t : htable) : option (Z * Z) :=
            end
   end.
 
-Definition issue (k : hkind) (id parent obj : Z) (t : htable) : verdict * htable :=
+Definition issue (k : hkind) (id parent obj mode : Z) (t : htable) : verdict * htable :=
   match aget id t with
-  | None => (VOk, (id, mkH k obj parent 1) :: t)
+  | None => (VOk, (id, mkH k obj parent 1 mode) :: t)
   | Some h =>
       if shareable k && hkind_eqb (hk h) k && (hobj h =? obj)
-      then (VOk, aset id (mkH k obj parent (hcnt h + 1)) t)
+      then (VOk, aset id (mkH k obj parent (hcnt h + 1) mode) t)
       else (VBad 4, t)
   end.
+
+(** Vdatas: a write attachment is exclusive.  While an id of the object is attached under the same file id, a new
+    attachment must be refused if it is for writing or if the existing one is. *)
+Definition exclusive_kind (k : hkind) : bool := match k with KVs => true | _ => false end.
+Definition excl_conflict (k : hkind) (parent obj mode : Z) (t : htable) : bool :=
+  exclusive_kind k &&
+  existsb (fun e => hkind_eqb (hk (snd e)) k && (hparent (snd e) =? parent) && (hobj (snd e) =? obj) &&
+                    ((mode =? 1) || (hmode (snd e) =? 1))) t.
 
 Definition h_step (c : hcall) (a : hans) (t : htable) : verdict * htable :=
   match c with
   | CRoot k obj argsok =>
       match a with
       | AFail => (if argsok then VBad 2 else VOk, t)
-      | AOk id => issue k id (-1) obj t
+      | AOk id => issue k id (-1) obj 0 t
       end
-  | CIssue k parent pk sub argsok =>
+  | CIssue k parent pk sub argsok mode =>
       match hget pk parent t, a with
       | None, AFail => (VOk, t)
       | None, AOk _ => (VBad 1, t)
-      | Some _, AFail => (if argsok then VBad 2 else VOk, t)
-      | Some p, AOk id => issue k id parent (100 * hobj p + sub) t
+      | Some p, AFail => (if argsok && negb (excl_conflict k parent (100 * hobj p + sub) mode t) then VBad 2 else VOk, t)
+      | Some p, AOk id => if excl_conflict k parent (100 * hobj p + sub) mode t then (VBad 7, t)
+                          else issue k id parent (100 * hobj p + sub) mode t
       end
   | CUse k id =>
       match hget k id t, a with
@@ -604,7 +613,7 @@ Definition h_step (c : hcall) (a : hans) (t : htable) : verdict * htable :=
       | Some h, AFail => (if has_blocking_children id t then VOk else VBad 2, t)
       | Some h, AOk _ =>
           if has_blocking_children id t then (VBad 5, t)
-          else if 1 <? hcnt h then (VOk, aset id (mkH (hk h) (hobj h) (hparent h) (hcnt h - 1)) t)
+          else if 1 <? hcnt h then (VOk, aset id (mkH (hk h) (hobj h) (hparent h) (hcnt h - 1) (hmode h)) t)
           else (VOk, prune (prune (prune (adel id t))))
       end
   | CPair k1 id1 k2 id2 argsok =>
